@@ -53,3 +53,10 @@ using LB16 = nop::LogicalBuffer<std::uint16_t[200], std::uint8_t, false>;
 std::size_t x_lb_size(const LB16* v) { return nop::Encoding<LB16>::Size(*v); }
 nop::Status<void> x_lb_rd(LB16* v, vt::SpecReader* r) { return nop::Encoding<LB16>::ReadPayload(nop::EncodingByte::Binary, v, r); }
 nop::Status<void> x_lb_wr(const LB16* v, vt::SpecWriter* w) { return nop::Encoding<LB16>::WritePayload(nop::EncodingByte::Binary, *v, w); }
+
+// logical buffer with NON-integral elements and a SIGNED count member: 160 x float counted by an int (ARY encoding,
+// element-wise loops; the count header must be the UINT64 class of the count, whatever the count member's type)
+using LBF = nop::LogicalBuffer<float[160], int, false>;
+nop::Status<void> x_lbf_rd(LBF* v, vt::SpecReader* r) { return nop::Encoding<LBF>::ReadPayload(nop::EncodingByte::Array, v, r); }
+nop::Status<void> x_lbf_wr(const LBF* v, vt::SpecWriter* w) { return nop::Encoding<LBF>::WritePayload(nop::EncodingByte::Array, *v, w); }
+nop::Status<void> x_wr_f32(const float* v, vt::SpecWriter* w) { return nop::Encoding<float>::Write(*v, w); }
